@@ -102,3 +102,46 @@ def generic(cls_name, method):
             if after != before and t.name not in l.changes:
                 return {"violated": True, "scenario": f"{cls_name}.{method}{tuple(args)} after setup `{setup}`", "before": before, "after": after, "changes": l.changes}
     return {"violated": False, "tried": tried}
+
+
+def report_building():
+    """real Engine + real EngineMessageBuilder: queue some tags (one of them twice, one changed after queuing), build a report and a
+    snapshot: no name twice, every queued tag present with its current value, the snapshot contains every tag"""
+    import logging
+    from openpectus.lang.exec.uod import UodBuilder
+    from openpectus.lang.exec.tags import Tag
+    from openpectus.test.engine.utility_methods import EngineTestRunner
+    from openpectus.engine.engine_message_builder import EngineMessageBuilder
+    logging.disable(logging.CRITICAL)
+
+    def create_uod():
+        uod = (UodBuilder().with_instrument("DemoUod").with_author("Demo", "demo@example.org").with_filename(__file__)
+               .with_hardware_none().with_location("loc").with_tag(Tag("X1", value=1)).with_tag(Tag("X2", value=2)).build())
+        uod.hwl.connect()
+        return uod
+    try:
+        with EngineTestRunner(create_uod, "Mark: A\n", fail_on_log_error=False).run() as instance:
+            e = instance.engine
+            b = EngineMessageBuilder(e, "", True)
+            b.collect_tag_updates()                         # drain whatever start-up queued
+            x1, x2 = e.uod.tags["X1"], e.uod.tags["X2"]
+            for t in (x1, x2, x1):
+                e.tag_updates.put(t)
+            x2.value = 22                                   # changed after it was queued: the report must carry the latest value
+            rep = b.collect_tag_updates()
+            names = [t.name for t in rep]
+            vals = {t.name: t.value for t in rep}
+            if len(names) != len(set(names)):
+                return {"violated": True, "what": "a report contains a tag twice", "names": names}
+            if set(names) != {"X1", "X2"} or vals.get("X2") != 22 or vals.get("X1") != 1:
+                return {"violated": True, "what": "a queued tag is missing from the report or carries a stale value", "report": vals}
+            if e.tag_updates.qsize() != 0:
+                return {"violated": True, "what": "the queue was not drained", "left": e.tag_updates.qsize()}
+            snap = [t.name for t in b.collect_tag_updates(snapshot=True)]
+            every = [t.name for t in e._iter_all_tags()]
+            missing = [n for n in every if n not in snap]
+            if missing or len(snap) != len(set(snap)):
+                return {"violated": True, "what": "the snapshot report misses tags or repeats one", "missing": missing, "snapshot_size": len(snap)}
+            return {"violated": False, "tags_in_snapshot": len(snap)}
+    finally:
+        logging.disable(logging.NOTSET)
